@@ -22,8 +22,12 @@
 #include "message.h"
 #include "event.h"
 #include "values.h"
+#include "stream.h"
+#include "connection.h"
+#include <sys/socket.h>
+#include <sys/uio.h>
 
-enum { KBuf = 1, KHmeta, KReply, KRawdata, KGeninfo, KMetabuf, KCxxref, KBare };
+enum { KBuf = 1, KHmeta, KReply, KRawdata, KGeninfo, KMetabuf, KCxxref, KBare, KStream };
 
 #define MAXH 6
 #define MAXO 8
@@ -58,6 +62,8 @@ static int made;
 static MPT_STRUCT(refcount) bare;
 static MPT_STRUCT(array) inner;      /* content shared by the metabuf objects */
 static long sends;
+static int peers[MAXO];              /* far ends of the stream socket pairs */
+static int npeers;
 
 /* ---------- counter values: k, or MAX-k reported relative to the model's Max ---------- */
 static uintptr_t real_of(long long v)
@@ -161,13 +167,49 @@ static int obj_register(void *p)
 	objs[made].ndefer = 0;
 	return ++made;
 }
+/* raw data with one stage holding a few values: nested buffers that must go with the object */
+static void *rawdata_filled(void)
+{
+	MPT_INTERFACE(metatype) *mt = mpt_rawdata_create(0);
+	MPT_INTERFACE(rawdata) *rd = 0;
+	static const double vals[3] = { 1.0, 2.0, 3.0 };
+	struct iovec vec;
+	MPT_STRUCT(value) val;
+	if (!mt) return 0;
+	/* the raw data interface follows the metatype interface inside the object (the type id
+	 * mpt_rawdata_type_traits() hands out changes with every call at the pinned commit, so
+	 * the conversion cannot be used to obtain it) */
+	rd = (MPT_INTERFACE(rawdata) *) (mt + 1);
+	if (rd->_vptr) {
+		vec.iov_base = (void *) vals;
+		vec.iov_len = sizeof(vals);
+		MPT_value_set(&val, MPT_type_toVector('d'), &vec);
+		rd->_vptr->modify(rd, 0, &val, 0);
+	}
+	return mt;
+}
+static void *stream_input(void)
+{
+	int sv[2];
+	MPT_STRUCT(socket) sock;
+	MPT_INTERFACE(input) *in;
+	if (npeers >= MAXO || socketpair(AF_UNIX, SOCK_STREAM, 0, sv) < 0) return 0;
+	sock._id = sv[0];
+	if (!(in = mpt_stream_input(&sock, MPT_STREAMFLAG(RdWr), MPT_ENUM(EncodingCobs), 2))) {
+		close(sv[0]); close(sv[1]);
+		return 0;
+	}
+	peers[npeers++] = sv[1];
+	return in;
+}
 static void *obj_create(void)
 {
 	switch (kind) {
 	case KBuf:     return _mpt_buffer_alloc(16, 0);
 	case KHmeta:   return hm_new();
 	case KReply:   return mpt_reply_deferrable(8, send_cb, &sends);
-	case KRawdata: return mpt_rawdata_create(0);
+	case KRawdata: return rawdata_filled();
+	case KStream:  return stream_input();
 	case KGeninfo: return mpt_meta_geninfo(8);
 	case KMetabuf: return mpt_meta_buffer(inner._buf ? &inner : 0);
 	case KCxxref:  return cxx_thing_create();
@@ -176,11 +218,12 @@ static void *obj_create(void)
 }
 static int is_meta(void)
 {
-	return kind == KHmeta || kind == KReply || kind == KRawdata || kind == KGeninfo || kind == KMetabuf;
+	return kind == KHmeta || kind == KReply || kind == KRawdata || kind == KGeninfo || kind == KMetabuf || kind == KStream;
 }
 
 static void drv_reset(void)
 {
+	while (npeers) close(peers[--npeers]);
 	memset(slot, 0, sizeof(slot));
 	memset(objs, 0, sizeof(objs));
 	memset(&inner, 0, sizeof(inner));
@@ -231,6 +274,15 @@ static void emit(struct cmd *c, const char *ret, long long val, const int *was)
 	j_ints("shared", v, nobj);
 	j_int("val", val);
 	j_int("bare", kind == KBare ? sym_of(bare._val) : -1);
+	{
+		/* blocks still allocated besides the harness' own shared content (which must be unshared again) */
+		long q = vf_live_untagged();
+		if (inner._buf && vf_containing(inner._buf)) {
+			q -= 1;
+			if (inner._buf->_vptr->get_flags(inner._buf) & MPT_ENUM(BufferShared)) q += 1000;
+		}
+		j_int("quiet", q);
+	}
 	drv_dbg();
 	j_int("blocks", vf_live());
 	j_int("badfree", vf_badfree);
@@ -241,9 +293,9 @@ static void emit(struct cmd *c, const char *ret, long long val, const int *was)
 
 static int kind_of(const char *s)
 {
-	static const char *names[] = { "", "buf", "hmeta", "reply", "rawdata", "geninfo", "metabuf", "cxxref", "bare" };
+	static const char *names[] = { "", "buf", "hmeta", "reply", "rawdata", "geninfo", "metabuf", "cxxref", "bare", "stream" };
 	int i;
-	for (i = 1; i <= KBare; i++) if (s && !strcmp(s, names[i])) return i;
+	for (i = 1; i <= KStream; i++) if (s && !strcmp(s, names[i])) return i;
 	return 0;
 }
 static const MPT_STRUCT(type_traits) *ref_traits(void)
@@ -291,6 +343,18 @@ static void drv_step(struct cmd *c)
 		if (nobj > MAXO) nobj = MAXO;
 		if (kind == KMetabuf) {
 			mpt_array_append(&inner, 4, "ab\0");
+		}
+		if (kind && kind != KBare) {
+			/* warm-up: process-global tables (type registry, traits) are set up by the first
+			 * object; what stays allocated after it is gone is not counted as belonging to a later one */
+			void *p = obj_create();
+			if (p) raw_unref(p);
+			while (npeers) close(peers[--npeers]);
+			vf_tag_all(1);
+			if (inner._buf) {
+				struct vf_blk *b = vf_containing(inner._buf);
+				if (b) b->tag = 0;
+			}
 		}
 		vf_step();
 		emit(c, kind ? "ok" : "bad-kind", -1, 0);
@@ -415,6 +479,17 @@ static void drv_step(struct cmd *c)
 		copybuf = 0;
 		b->_vptr->unref(b);
 		emit(c, "ok", -1, was);
+	}
+	else if (!strcmp(a, "unshare")) {
+		MPT_STRUCT(buffer) *b, *nb;
+		if (!h || !via || kind != KBuf || !(b = (MPT_STRUCT(buffer) *) slot[h - 1])) goto bad;
+		if (!strcmp(via, "vptr")) {
+			if ((nb = b->_vptr->detach(b, 8))) slot[h - 1] = nb;
+		}
+		else if (!strcmp(via, "reserve")) nb = mpt_array_reserve((MPT_STRUCT(array) *) &slot[h - 1], 8, 0);
+		else goto bad;
+		if (nb && nb != b) obj_register(nb);
+		emit(c, nb ? "ok" : "refused", -1, was);
 	}
 	else if (!strcmp(a, "clone")) {
 		MPT_INTERFACE(metatype) *mt, *n;
